@@ -17,7 +17,8 @@ EXPLANATION = (
     "hint (only in the two sanctioned functions), an in-flight marker, or carry a dependency on uuid.uuid4() (fresh "
     "name: racers and later commits can never overwrite a file a retained snapshot references). The delete branch "
     "of _commit_file_ops must not write or delete in place; every delete-capable sink of the package is censused "
-    "against the sanctioned owners; current-snapshot repointing must follow snapshot_log recency, never max(id).")
+    "against the sanctioned owners; current-snapshot repointing must follow snapshot_log recency, never max(id)."
+    " Also: (R5) timestamp lookup resolves ties by commit order; (R6-R8) the collector's reachability / no-skip / delete-guard rules (collections must leave every retained snapshot readable).")
 NOT_DECIDED = ("content equality of re-read snapshots over histories; timestamp lookup under non-monotonic "
                "clocks (depends on run-time values)")
 
